@@ -10,10 +10,15 @@ N = {"quick": (30, 260), "thorough": (2000, 30000)}
 
 def run_cases(chk, binp, cases, pf_ok, pf):
     J = X.observe(binp, cases)
-    dist = {"returned": 0, "panic": 0, "unloadable": 0}
+    dist = {"returned": 0, "panic": 0, "unloadable": 0, "crashed": 0}
     bad = []
     for j in J:
         panicked = False
+        if j["rec"].get("crash"):
+            dist["crashed"] += 1
+            chk.violation("specification validation took the process down (%s) on a document that loads" % j["rec"]["crash"],
+                          {"case": j["case"], "detail": j["rec"].get("detail", "")[:600]})
+            continue
         for key, r in j["runs"].items():
             if r["outcome"] == "ok":
                 dist["returned"] += 1
@@ -60,7 +65,7 @@ def run_cases(chk, binp, cases, pf_ok, pf):
         "evaluations": sum(len(j["runs"]) for j in J), "distinct_nontrivial": len(loaded),
         "rule": "every specification fixture of /repo (JSON and YAML), grammar-generated specifications, and 0..3 structural edits of them "
                 "(delete / retype to every JSON kind incl. null / rename to names with dots, empty names / transplant a sub-tree / "
-                "references to nowhere or with siblings), each validated in both continue-on-errors modes under recover; "
+                "references to nowhere or with siblings), graphs of allOf ancestors (chains, diamonds, cycles, the reference wrapped in inline allOf members), each validated in both continue-on-errors modes under recover; "
                 "non-trivial = the document loads; distinct by document",
         "samples": [J[0]["case"], {k: v for k, v in J[-1]["case"].items() if k != "doc"}],
         "outcome_split": dist, "documents_by_origin": origins, "visited_heuristic_cases": len(vrecs), "visited_heuristic_mismatches": len(vbad),
@@ -73,6 +78,12 @@ def run(chk):
     binp = C.build_harness("verif")
     ng, ne = N[chk.tier]
     cases = X.corpus(chk.seed + 7, ng, ne)
+    import random
+    from .. import specgen as G
+    rng = random.Random(chk.seed + 77)
+    for _ in range(40 if chk.tier == "quick" else 3000):
+        d, cyc = G.ancestry_doc(rng)
+        cases.append({"doc": d, "origin": "allOf ancestry graph" + (" with a cycle" if cyc else "")})
     import os
     cdir = os.path.join(C.VERIF, "corpus", "C07")
     extra = []
